@@ -217,7 +217,7 @@ class Pile(Widget, WidgetContainerMixin, WidgetContainerListContentsMixin):
                 self.contents.append((w, (WHSettings.GIVEN, height)))
             elif w[0] == WHSettings.WEIGHT:
                 f, height, w = w
-                self.contents.append((w, (f, height)))
+                self.contents.append((w, (WHSettings.WEIGHT, height)))
             else:
                 raise PileError(f"initial widget list item invalid {original!r}")
             if focus_item is None and w.selectable():
@@ -439,7 +439,7 @@ class Pile(Widget, WidgetContainerMixin, WidgetContainerListContentsMixin):
         if height_type == WHSettings.PACK:
             return (WHSettings.PACK, None)
         if height_type in {WHSettings.GIVEN, WHSettings.WEIGHT} and height_amount is not None:
-            return (height_type, height_amount)
+            return (WHSettings(height_type), height_amount)
         raise PileError(f"invalid combination: height_type={height_type!r}, height_amount={height_amount!r}")
 
     @property
